@@ -1,7 +1,7 @@
 (* Props/C12.v — Recorded rates follow the winning records and are immutable.
    Only statements, each closed by [exact]; proofs live in Lemmas/. *)
 From Model Require Import Examples.
-From Lemmas Require Import ChainLemmas HoldingLemmas.
+From Lemmas Require Import ChainLemmas HoldingLemmas NoWinners NoWinnersStatus.
 Open Scope Z_scope.
 
 (* Rates once recorded for a height never change: whatever a later block contains, every rate
@@ -17,6 +17,31 @@ Theorem C12_rates_only_for_own_height : forall c cm mem b s' mem' k,
   k <> b_height b -> step_block c cm mem b = Done (s', mem') -> rates s' !! k = rates cm !! k.
 Proof. exact step_block_rates_only_own_height. Qed.
 Print Assumptions C12_rates_only_for_own_height.
+
+(* A block without winners records no rates: when the OPR verdict for the block (and, from 2.0 on, the SPR verdict)
+   has no winners, the whole body of the loop leaves pn_rate exactly as it was -- whatever else the block contains,
+   in every era, on every committed state.  (The verdicts are the graders' for the arguments the code passes.) *)
+Theorem C12_block_without_winners_records_no_rates : forall c cm mem b s' mem',
+  step_block c cm mem b = Done (s', mem') ->
+  (forall g, grade_opr c cm b = Done g -> no_winners g) ->
+  (c_V20HeightActivation c <= b_height b -> forall g, grade_spr c cm b = Done g -> no_winners g) ->
+  rates s' = rates cm.
+Proof. exact no_winners_no_rates. Qed.
+Print Assumptions C12_block_without_winners_records_no_rates.
+(* ... and executes no pending conversion: the batch-status table only grows in such a block -- every row recorded
+   before it is still there, unchanged, so a batch that was pending stays pending (the holding pass, the only code
+   that changes the status of an earlier batch, runs only when the block recorded rates) *)
+Theorem C12_block_without_winners_changes_no_status : forall c cm mem b s' mem',
+  step_block c cm mem b = Done (s', mem') ->
+  (forall g, grade_opr c cm b = Done g -> no_winners g) ->
+  (c_V20HeightActivation c <= b_height b -> forall g, grade_spr c cm b = Done g -> no_winners g) ->
+  exists ext, hist s' = hist cm ++ ext.
+Proof. exact no_winners_no_status_change. Qed.
+Print Assumptions C12_block_without_winners_changes_no_status.
+(* satisfiable: block 103 of the example chain (no OPR entries) applies, records nothing and leaves the pending
+   conversion pending; block 104 (a winner) does record rates *)
+Check no_winners_no_rates_example.
+Check no_winners_status_example.
 
 (* what is recorded from 2.0 on: only OPR winners -> the OPR's rates, only SPR winners -> the SPR's,
    neither -> no rates; both, per asset: the OPR value if it is inside the tolerance band around the
